@@ -67,6 +67,11 @@ def run_group(pid, names, tier, repo, verif, build):
     env = dict(os.environ, CARGO_NET_OFFLINE='true', SCALE_TYPEGEN_VERIF_DIR=verif)
     with open(LOCK, 'w') as lk:
         fcntl.flock(lk, fcntl.LOCK_EX)   # one cargo-kani at a time on the shared target dir
+        # Kani collects harness artifacts from every package-hash directory of the target dir, so artifacts of the
+        # workspace crates built from ANOTHER source path (a scratch copy used by the self-test or by tools/mut.sh)
+        # would be picked up as if they belonged to this tree.  Remove the workspace crates' artifacts before every
+        # run; the dependencies stay cached.  (Observed: a stale mutated harness reported on the unchanged tree.)
+        purge_workspace_artifacts(target)
         for crate, hs in by_crate.items():
             cmd = ['cargo', 'kani', '-p', crate, '--target-dir', target, '-Z', 'function-contracts', '-Z', 'stubbing',
                    '--output-format', 'terse', '-j', str(min(8, len(hs)))]
@@ -119,6 +124,21 @@ def run_group(pid, names, tier, repo, verif, build):
                         r.update(status='undecided', undecided=[{'reason': 'Kani failed without a property failure (unwinding / unsupported construct): %s' % (infra or tail(ph['text']))}])
                 results.append(r)
     return results
+
+
+def purge_workspace_artifacts(target):
+    import glob
+    import shutil
+    for pat in ('kani/*/debug/build/scale-typegen*', 'kani/*/debug/incremental/scale_typegen*', 'kani/*/debug/libscale_typegen*',
+                'kani/*/debug/.fingerprint/scale-typegen*', 'kani/*/debug/deps/*scale_typegen*'):
+        for pth in glob.glob(os.path.join(target, pat)):
+            if os.path.isdir(pth):
+                shutil.rmtree(pth, ignore_errors=True)
+            else:
+                try:
+                    os.remove(pth)
+                except OSError:
+                    pass
 
 
 def tail(s, n=600):
